@@ -38,7 +38,7 @@ def first_uses(p, res):
 
 
 def run_structural(chk, F):
-    chk.rule("R1.endianness", floor=18, doc="every word fetched with read_word in BE code is first passed through to_be (LE: to_le), or discarded")
+    chk.rule("R1.endianness", floor=10, doc="every word fetched with read_word in BE code is first passed through to_be (LE: to_le), or discarded")
     chk.rule("R1.sites", floor=1, doc="read_word call sites seen in the bit readers")
     sites_total = set()
     for b, e in reader_bodies(F):
@@ -75,7 +75,7 @@ def run_structural(chk, F):
         if sites:
             key = "%s|%s" % (b.get("impl_self", "")[:40], b["path"].split(" as ")[-1][-60:])
             chk.expect("R1.endianness", key, not probs, "%s: %s" % (b["path"], "; ".join(sorted(set(probs)))), sample={"fn": b["path"], "read_word_sites": len(sites)})
-    chk.expect("R1.sites", "count", len(sites_total) >= 30, "only %d read_word call sites found in the bit readers (expected >= 30)" % len(sites_total),
+    chk.expect("R1.sites", "count", len(sites_total) >= 12, "only %d read_word call sites found in the bit readers (expected >= 12: the rule would be close to vacuous)" % len(sites_total),
                sample={"sites": len(sites_total)})
     # R4 clone
     chk.rule("R4.clone", floor=4, doc="Clone for BufBitReader initialises every field of the struct from the same field of self")
